@@ -234,7 +234,8 @@ class Ctx(object):
         """call a mutating method (add / mul_scalar): receiver may change, other operands must not"""
         name = kw.pop("_name", None) or "%s.%s" % (type(obj).__name__, meth)
         allow = kw.pop("_allow", ())
-        snaps = self._snap(list(args) + list(kw.values()))
+        guard = kw.pop("_guard", True)
+        snaps = self._snap([a for a in list(args) + list(kw.values()) if a is not obj]) if guard else []
         self.cut_calls += 1
         try:
             with contextlib.redirect_stdout(env.SINK):
